@@ -34,6 +34,10 @@ CHECKS = {
          "metamorphic runtime check: restore of pruned vs. unpruned journal"),
  "C16": ("E3 allocator lab", "5/C16", "brute force over group subsets on the snapshot taken before each grant decides minimal/optimal group counts, spreading, feasibility and admission/grant agreement for the real allocator",
          "runtime monitor: brute-force reference oracle on every reached allocator free state"),
+ "C17": ("E5 autoalloc lab", "5/C17", "the real AutoAllocState driven through its real entry points (handle_message, perform_submits, do_periodic_update) and the real scheduler worker query, against a simulated batch system with adversarial answers and a virtual limiter clock; limits checked on every snapshot, submissions on every handler call",
+         "runtime monitor: invariant + call-log oracle over random autoalloc histories with a simulated batch system"),
+ "C18": ("E5 autoalloc lab", "5/C18", "per-allocation automaton over snapshots, Allocation* events and the handler call log for the same histories (lifecycle-heavy mix)",
+         "runtime monitor: per-allocation lifecycle automaton + worker-set ledger"),
  "C20": ("E7 handshake lab", "5/C20", "two real do_authentication futures joined through a man-in-the-middle that passes, replays, reflects, splices and modifies the four frames; configuration matrix and single-frame manipulations enumerated exhaustively, multi-frame manipulations sampled",
          "runtime monitor: acceptance oracle over adversarially manipulated real handshakes"),
 }
@@ -41,6 +45,7 @@ LEVEL_NOTE = {
  SIM: "held on the executions produced, never 'verified'; trusted: registration/disconnect glue restated in tako::verif::SimServer, fake task launcher, FIFO-per-link transport model, HiGHS determinism for replay",
  "E3 allocator lab": "held on the operation sequences produced; the allocator is driven directly through tako::verif::AllocatorLab with well-formed requests; brute-force reference and ledger are small but trusted",
  "E7 handshake lab": "adversary without key material; frames decoded with mirror structs of the crate-private messages",
+ "E5 autoalloc lab": "the batch system is simulated (the real PBS/Slurm handlers are out of scope); demand is judged only where unambiguous; per worker the connect notification precedes the loss notification",
  "E4 journal lab": "exhaustive over the record boundaries of the journals produced (journals themselves are sampled); reference fold is small but trusted; queue records are not produced inside E1",
 }
 LEVEL = {p: "exploration" for p in CHECKS}
@@ -80,6 +85,7 @@ manifest = {
    {"name": "E1 cluster simulation", "path": "/verif/harness/src/sim", "serves_properties": ["C01","C02","C03","C05","C06","C07","C08","C09","C13","C14"], "kind_free_text": "in-process simulation from the real tako core/worker state machine/HQ job layer with harness-owned nondeterminism + online/offline monitors (/verif/harness/src/oracle)"},
    {"name": "E3 allocator lab", "path": "/verif/harness/src/alloc.rs", "serves_properties": ["C04","C16"], "kind_free_text": "real ResourceAllocator under random operation sequences with shadow ledger and brute-force reference"},
    {"name": "E4 journal lab", "path": "/verif/harness/src/journal.rs", "serves_properties": ["C10","C11","C12","C03","C06","C07"], "kind_free_text": "real JournalWriter/Reader, real StateRestorer and real journal thread (prune) on journals produced by E1; every record boundary enumerated"},
+   {"name": "E5 autoalloc lab", "path": "/verif/harness/src/autoalloc.rs", "serves_properties": ["C17","C18","C09"], "kind_free_text": "real autoalloc state machine + real scheduler query + simulated batch system (QueueHandler)"},
    {"name": "E7 handshake lab", "path": "/verif/harness/src/auth.rs", "serves_properties": ["C20"], "kind_free_text": "real do_authentication x2 with a man-in-the-middle"},
  ],
  "checks": checks,
